@@ -27,6 +27,8 @@ package recovery
 //@   property C16
 //@   ensures [a-failed-rebuild-keeps-what-it-indexed] purges <= old(purges) + 1
 //@   property C07
+//@   requires [offset-non-negative] offset >= 0
+//@   loop 1 invariant [every-record-from-the-offset-on-is-applied] i >= 0 && headersApplied == old(headersApplied) + ite(i > offset, i - offset, 0)
 //@   at call PurgeAllHeaders#1 assert [no-purge-unless-overwrite] overwrite
 //@   property C08
 //@   maybe verifyHeader is HeaderVerifier|NoopVerifier
@@ -77,8 +79,10 @@ package recovery
 //@   param onHeader is HeaderCallback
 //@   property C10 also C11
 //@   safety C10
-//@   modifies *, indexWrites, hdrVerified[hdr], hdrSubstituted[hdr], hdrSealed[hdr], ghosts(C14), rowWrites, ghosts(C12), keyMoves, upserts
+//@   modifies *, indexWrites, hdrVerified[hdr], hdrSubstituted[hdr], hdrSealed[hdr], ghosts(C14), rowWrites, ghosts(C12), keyMoves, upserts, headersApplied
 //@   property C07
+//@   ghostset headersApplied := old(headersApplied) + 1
+//@   ensures [counted] headersApplied == old(headersApplied) + 1
 //@   ensures [a-create-record-always-replaces-its-row] result == nil && (!old(has(hdr.PAXRecords, "STFS.Version")) || old(hdr.PAXRecords["STFS.Version"]) == "1") && (!old(has(hdr.PAXRecords, "STFS.Action")) || old(hdr.PAXRecords["STFS.Action"]) == "CREATE") ==> upserts == old(upserts) + 1
 //@   ensures [move-record-rewrites-key] old(has(hdr.PAXRecords, "STFS.ReplacesName")) && (!old(has(hdr.PAXRecords, "STFS.Version")) || old(hdr.PAXRecords["STFS.Version"]) == "1") && old(hdr.PAXRecords["STFS.Action"]) == "UPDATE" && result == nil ==> keyMoves == old(keyMoves) + 1
 //@   property C04
